@@ -496,7 +496,15 @@ class Env:
         a = self.ask(f"op {self.op_count}", "op")
         if a.kind == "raise":
             raise self._op_exception(a.a)
-        return Val(a.a)
+        return self._val(a.a)
+
+    def _val(self, vid: int) -> "Val":
+        """Same token => same value OBJECT (an operation may hand back the object it returned before)."""
+        cache = self.__dict__.setdefault("_val_cache", {})
+        v = cache.get(vid)
+        if v is None:
+            v = cache[vid] = Val(vid)
+        return v
 
     def _op_exception(self, tok: str) -> BaseException:
         """Same token => same exception OBJECT (an operation may re-raise a cached error)."""
@@ -518,7 +526,7 @@ class Env:
         if a.kind == "raise" and a.a.startswith("ordinary:"):
             raise self._op_exception(a.a)
         await self._araise_or(a)
-        return Val(a.a)
+        return self._val(a.a)
 
     def _classification(self, a: Ans):
         k = ErrorClass[a.a]
@@ -587,6 +595,9 @@ class Env:
 
         class Recording:
             __call__ = fn
+
+            def __len__(self):      # a strategy OBJECT may well be falsy (e.g. an empty schedule): the
+                return 0            # library must test `is None`, never truthiness
 
             def record_failure(self, klass=None):
                 a = env.ask(f"stratRecordFailure {key} {klass.name}", "stratRecord")
@@ -756,7 +767,14 @@ def build(env: Env, cfg: LoopCfg) -> Built:
                   for k, kind in cfg.strat_for.items()}
     default = (env.make_strategy("default", cfg.strat_default, "default" in cfg.strat_records)
                if cfg.strat_default is not None else None)
+    # `attempt_timeout`: sync only (asyncio.wait_for needs a running loop; the async runners are driven by
+    # hand).  The timeout is an hour of REAL time and never fires: the point is that `_call_with_timeout`
+    # (worker thread + future) must be transparent for values and for every exception kind.
+    extra_kwargs: dict[str, Any] = {}
+    if cfg.has("attempt_timeout") and not cfg.has("async") and not cfg.has("no_retry"):
+        extra_kwargs["attempt_timeout_s"] = 3600.0
     retry_kwargs: dict[str, Any] = dict(
+        **extra_kwargs,
         classifier=env.classifier,
         result_classifier=env.result_classifier if cfg.has("result_classifier") else None,
         strategy=default,
